@@ -83,6 +83,8 @@ class Ty:
             return "list " + self.elem.coq()
         if self.kind == "void":
             return "unit"
+        if self.kind == "opt":
+            return "option " + self.elem.coq()
         raise Unsupported("no Gallina type for C++ type kind %s" % self.kind)
 
     def same(self, o):
@@ -148,6 +150,12 @@ def annotate_lines(o, cur):
     elif isinstance(o, list):
         for v in o:
             annotate_lines(v, cur)
+
+
+def inspec_here(targs, o):
+    """the template arguments of this specialisation were already appended by the enclosing ClassTemplateDecl"""
+    mine = [Unit.targ_str(x) for x in o.get("inner", []) if x.get("kind") == "TemplateArgument"]
+    return bool(mine) and targs[-len(mine):] == mine
 
 
 HEXID = re.compile(r"^0x[0-9a-f]+$")
@@ -257,6 +265,9 @@ class Unit:
                     self.index(c, q, ta, inspec or spec)
             return
         if k in ("CXXRecordDecl", "ClassTemplateSpecializationDecl", "NamespaceDecl"):
+            if k == "ClassTemplateSpecializationDecl" and not inspec_here(targs, o):
+                targs = targs + [self.targ_str(x) for x in o.get("inner", []) if x.get("kind") == "TemplateArgument"]
+                inspec = True
             for c in o.get("inner", []):
                 if c.get("kind", "").endswith("Decl") and "name" in c:
                     self.index(c, q + "::" + c["name"], targs, inspec)
@@ -319,6 +330,7 @@ class Unit:
         for i in range(len(scopes), 0, -1):
             tries.append("::".join(scopes[:i] + [name]))
         tries.append("::" + name)        # e.g. a static member of another class template specialisation
+        tries.append("std::" + name)
         for t in tries:
             self.dump(t)
             if by_sig():
@@ -345,10 +357,32 @@ class Unit:
             elif self.inspec[did]:
                 continue
             cands.append(d)
+        if len(cands) > 1 and len(set((c["type"]["qualType"], tuple(self.targs[c["id"]]), c.get("_line"),
+                                       c["id"].split(":")[0]) for c in cands)) == len(cands) and \
+                len(set((c["type"]["qualType"], tuple(self.targs[c["id"]]), c.get("_line")) for c in cands)) == 1:
+            cands = cands[:1]        # the same declaration seen in several clang dumps (overlapping filters)
         if len(cands) != 1:
             raise Unsupported("function spec %r selects %d declarations (%s); refine sig/targs" % (
                 spec, len(cands), [(c["type"]["qualType"], self.targs[c["id"]]) for c in cands]))
         return cands[0]
+
+    def empty_class(self, tname, node):
+        """True iff tname names a class without data members, bases or virtual functions (a stateless functor)"""
+        tname = re.sub(r"^(const|struct|class)\s+", "", tname.strip())
+        if not re.match(r"^[\w:]+$", tname):
+            return False
+        self.dump(tname)
+        recs = [d for i, d in self.decl.items() if d.get("kind") == "CXXRecordDecl" and d.get("name") == tname.split("::")[-1]
+                and d.get("completeDefinition") and (self.qual.get(i) or "").endswith(tname)]
+        if not recs:
+            return False
+        for r in recs:
+            if r.get("bases"):
+                return False
+            for c in r.get("inner", []):
+                if c.get("kind") == "FieldDecl" or c.get("virtual"):
+                    return False
+        return True
 
     def fresh_name(self, base):
         n, k = base, 1
@@ -358,7 +392,7 @@ class Unit:
         self.used_names.add(n)
         return n
 
-    def get_fn(self, decl, gname=None):
+    def get_fn(self, decl, gname=None, alias=None):
         did = decl["id"]
         if did in self.fns:
             return self.fns[did]
@@ -374,9 +408,11 @@ class Unit:
             if sibs:
                 gname += "_%d" % len([c for c in decl.get("inner", []) if c.get("kind") == "ParmVarDecl"])
         gname = self.fresh_name(gname)
-        ft = FnTrans(self, decl, gname, q)
-        info = ft.run()
-        self.in_progress.discard(did)
+        ft = FnTrans(self, decl, gname, q, alias)
+        try:
+            info = ft.run()
+        finally:
+            self.in_progress.discard(did)
         self.fns[did] = info
         return info
 
@@ -403,7 +439,7 @@ class Unit:
             txt = cast_text(txt, node_type(init[0]), ty, d)
         if b.lines:
             fail(d, "initialiser of a global constant is not a pure expression (it can be undefined)")
-        self.out.append("(* %s, line %s *)\nDefinition %s : %s := %s." % (self.qual.get(d["id"]), d.get("_line"), gname, ty.coq(), txt))
+        self.out.append("(* %s, line %s *)\nDefinition %s : %s := %s." % (cmt(self.qual.get(d["id"])), d.get("_line"), gname, ty.coq(), txt))
         self.globals[did] = (gname, ty)
         return self.globals[did]
 
@@ -411,7 +447,7 @@ class Unit:
         names = []
         for sp in specs:
             d = self.select(sp)
-            info = self.get_fn(d, sp.get("gname"))
+            info = self.get_fn(d, sp.get("gname"), sp.get("alias"))
             names.append(info.gname)
         body = "\n\n".join(self.out)
         return ("(* GENERATED by translator/cxx2coq.py from the clang AST of $REPO/include -- do not edit.\n   %s *)\n"
@@ -547,8 +583,10 @@ def walk(n):
 
 
 class FnTrans:
-    def __init__(self, unit, decl, gname, qual):
+    def __init__(self, unit, decl, gname, qual, alias=None):
         self.u, self.decl, self.gname, self.qual = unit, decl, gname, qual
+        self.alias = alias or {}
+        self.params = []
         self.scope = "::".join(qual.split("::")[:-1])
         self.vars = {}          # key -> Var (everything ever declared in this function, members included)
         self.names = set(["fuel"])
@@ -574,6 +612,13 @@ class FnTrans:
         return self.fresh("t%d" % self.tmp)
 
     def declare(self, d, kind):
+        tstr = node_type_str(d)
+        if kind == "param" and re.match(r"^(const\s+)?[A-Za-z_][\w:]*$", tstr.strip()) and \
+                re.sub(r"^const\s+", "", tstr.strip()) not in INT_TYPES and \
+                re.sub(r"^const\s+", "", tstr.strip()) not in TYPEDEFS and self.u.empty_class(tstr, d):
+            v = Var(d["id"], "tt", Ty("empty"), kind)      # stateless functor object: carries no data
+            self.vars[d["id"]] = v
+            return v
         ty = node_type(d)
         if getattr(ty, "ref", False):
             fail(d, "reference-typed variable")
@@ -583,7 +628,13 @@ class FnTrans:
                 fail(d, "pointer to non-integer")
             memkey = d["id"] + "#mem"
             v = Var(d["id"], self.fresh("v_" + name), ty, kind, mem=memkey)
-            if kind == "param":
+            v.cname = name
+            if kind == "param" and name in self.alias:
+                other = [p for p in self.params if p.ty.kind == "ptr" and p.cname == self.alias[name]]
+                if len(other) != 1 or not other[0].ty.elem.same(ty.elem):
+                    fail(d, "alias spec: no earlier pointer parameter '%s' of the same type" % self.alias[name])
+                v.mem = other[0].mem      # stated by the spec: both point into the same array
+            elif kind == "param":
                 self.vars[memkey] = Var(memkey, self.fresh("v_" + name + "_mem"), Ty("arr", elem=ty.elem), "parammem",
                                         const=ty.elem.const)
             else:
@@ -675,8 +726,9 @@ class FnTrans:
         if k == "DeclRefExpr":
             r = n["referencedDecl"]
             if r["kind"] in ("VarDecl", "ParmVarDecl"):
-                uses.add(r["id"])
                 v = self.vars.get(r["id"])
+                if v is None or v.ty.kind != "empty":
+                    uses.add(r["id"])
                 if v is not None and v.mem:
                     uses.add(v.mem)
         elif k == "MemberExpr":
@@ -692,6 +744,10 @@ class FnTrans:
             writes.add(self.lv_root(children(n)[0]))
         if k == "VarDecl":
             self.predeclare(n)
+        if k == "AtomicExpr":
+            kind, tgt, _ = self.atomic_shape(n)
+            if kind == "store":
+                writes.add(self.lv_root(tgt))
         if k in ("CallExpr", "CXXMemberCallExpr", "CXXOperatorCallExpr"):
             cu, cw = self.call_effects(n)
             uses |= cu
@@ -797,6 +853,29 @@ class FnTrans:
     def qual_of_class(self):
         return self.scope
 
+    def atomic_shape(self, n):
+        """clang's JSON does not name the atomic builtin; only two unambiguous shapes are accepted:
+        (&obj, order) of the pointee's (non-bool integer) type = __atomic_load_n;  (&obj, order, value) of type void with an
+        integer value of the pointee's type = __atomic_store_n.  Single-threaded reading: a load is a read, a store a write
+        (the memory order is not interpreted here; translator/gen_locks.py extracts the orders)."""
+        cs = children(n)
+        if len(cs) not in (2, 3):
+            fail(n, "atomic builtin of unsupported shape")
+        a = strip_parens(cs[0])
+        if a.get("kind") != "UnaryOperator" or a.get("opcode") != "&":
+            fail(n, "atomic builtin whose first argument is not &object")
+        tgt = children(a)[0]
+        pt = node_type(tgt)
+        if pt.kind not in ("u", "s"):
+            fail(n, "atomic builtin on a non-integer (or bool) object")
+        if strip_parens(cs[1]).get("kind") != "IntegerLiteral":
+            fail(n, "atomic builtin with a non-constant memory order")
+        if len(cs) == 2 and node_type_str(n) != "void" and node_type(n).same(pt):
+            return "load", tgt, None
+        if len(cs) == 3 and node_type_str(n) == "void" and node_type_kind(cs[2]) == "other" and node_type(cs[2]).same(pt):
+            return "store", tgt, cs[2]
+        fail(n, "atomic builtin other than __atomic_load_n / __atomic_store_n (by shape)")
+
     # ---------------------------------------------------------------- expressions
     def read_var(self, key, node):
         v = self.vars.get(key)
@@ -831,6 +910,10 @@ class FnTrans:
         if k == "UnaryOperator" and e["opcode"] == "*":
             mem, off = self.ptr(children(e)[0], b)
             return ("elem", mem, off, mem.ty.elem)
+        if k == "UnaryOperator" and e["opcode"] in ("++", "--") and not e.get("isPostfix") and \
+                node_type_kind(children(e)[0]) != "ptr":
+            self.expr(e, b)                       # prefix ++/-- is an lvalue: do the update, then denote the operand
+            return self.lvalue(children(e)[0], b)
         fail(e, "unsupported lvalue expression")
 
     def load(self, lv, b):
@@ -1168,7 +1251,48 @@ class FnTrans:
             if r is None:
                 fail(e, "value of a void call")
             return r
+        if k == "AtomicExpr":
+            kind, tgt, val = self.atomic_shape(e)
+            if kind != "load":
+                fail(e, "value of an atomic store")
+            return self.load(self.lvalue(tgt, b), b)
         fail(e, "expression kind outside the subset")
+
+    def opt_expr(self, e, ty, b):
+        """value of type frg::optional<integer>: only the two constructions `null_opt` and `an integer value` (through the
+        implicit conversions / elidable copies clang inserts).  Meaning of these constructors of frg::optional: empty / holding
+        the value (include/frg/optional.hpp, trusted)."""
+        k = e.get("kind")
+        cs = children(e)
+        if k in ("ExprWithCleanups", "MaterializeTemporaryExpr", "CXXBindTemporaryExpr", "ParenExpr") or \
+                (k == "ImplicitCastExpr" and e.get("castKind") in ("ConstructorConversion", "NoOp")):
+            return self.opt_expr(cs[0], ty, b)
+        if k != "CXXConstructExpr" or not OPTIONAL_RE.match(node_type_str(e).strip()):
+            fail(e, "frg::optional value that is not a direct construction")
+        ct = e.get("ctorType", {}).get("qualType", "")
+        if len(cs) != 1:
+            fail(e, "frg::optional constructor with %d arguments" % len(cs))
+        if ct == "void (frg::null_opt_type)":
+            return "None"
+        at = node_type_str(cs[0]).strip()
+        if OPTIONAL_RE.match(at):
+            if not e.get("elidable"):
+                fail(e, "copy of an frg::optional that is not an elidable temporary")
+            return self.opt_expr(cs[0], ty, b)
+        a = cs[0]
+        while a.get("kind") in ("MaterializeTemporaryExpr", "ExprWithCleanups"):
+            a = children(a)[0]
+        if a.get("kind") == "ImplicitCastExpr" and a.get("castKind") == "NoOp":
+            a = children(a)[0]
+        if a.get("valueCategory") in ("lvalue", "xvalue"):
+            aty = node_type(a)
+            x = self.load(self.lvalue(a, b), b)
+        else:
+            aty = node_type(a)
+            x = self.expr(a, b)
+        if not aty.same(ty.elem):
+            fail(e, "frg::optional<T> constructed from a value of another type")
+        return "(Some %s)" % x
 
     def expr_discard(self, e, b):
         k = e.get("kind")
@@ -1177,6 +1301,15 @@ class FnTrans:
             return
         if k in ("ParenExpr", "ExprWithCleanups"):
             return self.expr_discard(children(e)[0], b)
+        if k == "AtomicExpr":
+            kind, tgt, val = self.atomic_shape(e)
+            if kind == "store":
+                self.check_unseq([tgt, val], e)
+                x = self.expr(val, b)
+                self.store(self.lvalue(tgt, b), x, b, e)
+                return
+            self.expr(e, b)
+            return
         if k == "UnaryOperator" and e["opcode"] in ("++", "--") and node_type_kind(children(e)[0]) == "ptr":
             self.ptr(e, b)
             return
@@ -1194,10 +1327,19 @@ class FnTrans:
         for p, a in zip(info.params, args):
             if a.get("kind") == "CXXDefaultArgExpr":
                 fail(a, "default argument")
+            if p.ty.kind == "empty":
+                continue
             if p.ty.kind == "ptr":
                 mem, off = self.ptr(a, b)
-                argv += [mem.gname, off]
-                argmem[p.key] = mem
+                if p.mem in argmem:
+                    if argmem[p.mem].key != mem.key:
+                        fail(a, "callee expects this pointer to point into the same object as an earlier argument")
+                    argv += [off]
+                else:
+                    if any(m.key == mem.key for m in argmem.values()):
+                        fail(a, "two pointer arguments into the same object where the callee assumes distinct objects")
+                    argv += [mem.gname, off]
+                    argmem[p.mem] = mem
             elif p.ty.kind == "arr":
                 lv = self.lvalue(a, b)
                 if lv[0] != "var" or lv[1].ty.kind != "arr":
@@ -1221,8 +1363,7 @@ class FnTrans:
                 outs.append(self.vars[sk])
                 self.mem_written.add(sk)
             else:
-                p = [p for p in info.params if p.mem == sk][0]
-                am = argmem[p.key]
+                am = argmem[sk]
                 if am.const:
                     fail(e, "callee writes through a pointer to a const object")
                 outs.append(am)
@@ -1304,6 +1445,17 @@ class FnTrans:
         if k == "ReturnStmt":
             b = Builder()
             cs = children(s)
+            mo = OPTIONAL_RE.match(node_type_str(cs[0]).strip()) if cs else None
+            if mo:
+                ty = Ty("opt", elem=parse_type_str(mo.group(1), s))
+                if not ty.elem.is_int():
+                    fail(s, "return of frg::optional of a non-integer")
+                if self.ret_ty is None:
+                    self.ret_ty = ty
+                elif not self.ret_ty.same(ty):
+                    fail(s, "return statements of different types")
+                v = self.opt_expr(cs[0], ty, b)
+                return b.wrap(ctx.ret(v))
             if cs:
                 ty = node_type(cs[0])
                 if self.ret_ty is None:
@@ -1513,7 +1665,7 @@ class FnTrans:
             c = self.expr(cond, bc) if cond else "true"
             core = bc.wrap("if %s then\n%s\nelse\n%s" % (c, indent(btxt), indent(norm())))
         self.live_keys = set(saved_live)
-        sty = tuple_ty([self.vars[x].ty.coq() for x in carried])
+        sty = tuple_ty([self.vty(x) for x in carried])
         self.pending_loops.append(dict(name=lname, ro=ro, carried=carried, sty=sty, has_ret=has_ret, core=core,
                                        line=s.get("_line")))
         call = "%s fuel%s" % (lname, "".join(" " + self.vars[x].gname for x in ro + carried))
@@ -1527,6 +1679,17 @@ class FnTrans:
                 r, rv, ctx.ret_raw(rv), pat, indent(after)))
         pre.bind(tuple_pat(cnames), call)
         return pre.wrap(self.seq(rest, ctx, kend))
+
+    def param_mems(self):
+        out = []
+        for p in self.params:
+            if p.mem and p.mem not in out:
+                out.append(p.mem)
+        return out
+
+    def vty(self, key):
+        v = self.vars[key]
+        return "Z" if v.ty.kind == "ptr" else v.ty.coq()
 
     # ---------------------------------------------------------------- function
     def ret_members(self):
@@ -1554,15 +1717,15 @@ class FnTrans:
         uses, writes = self.effects(body)
         self._ret_members = [x for x in writes if x in self.vars and self.vars[x].kind in ("member", "parammem")]
         members = self.order([k for k in self.vars if self.vars[k].kind == "member"])
-        state_in = members + [p.mem for p in self.params if p.mem]
+        state_in = members + self.param_mems()
         self.pending_loops = []
-        self.live_keys = set(state_in) | set(p.key for p in self.params)
+        self.live_keys = set(state_in) | set(p.key for p in self.params if p.ty.kind != "empty")
 
         ctx = Ctx(lambda v: "Ok @RET(%s)@" % (v if v is not None else ""), lambda rv: "Ok %s" % rv)
         # loops inside loops propagate LReturn
         term = self.seq_top(body, ctx)
         members = self.order([k for k in self.vars if self.vars[k].kind == "member"])
-        state_in = members + [p.mem for p in self.params if p.mem]
+        state_in = members + self.param_mems()
         out_keys = [k for k in state_in if k in self.mem_written]
         for k in writes:
             v = self.vars.get(k)
@@ -1576,26 +1739,29 @@ class FnTrans:
                 names = ([v] if v != "" else []) + [self.vars[k].gname for k in out_keys]
                 return tuple_val(names)
             return re.sub(r"@RET\(([^@]*)\)@", rep, txt)
-        rty = tuple_ty(([ret_ty.coq()] if ret_ty.kind != "void" else []) + [self.vars[k].ty.coq() for k in out_keys])
+        rty = tuple_ty(([ret_ty.coq()] if ret_ty.kind != "void" else []) + [self.vty(k) for k in out_keys])
         items = []
         for lp in self.pending_loops:
-            args = "".join(" (%s : %s)" % (self.vars[x].gname, self.vars[x].ty.coq() if self.vars[x].ty.kind != "ptr" else "Z")
-                           for x in lp["ro"] + lp["carried"])
+            args = "".join(" (%s : %s)" % (self.vars[x].gname, self.vty(x)) for x in lp["ro"] + lp["carried"])
             lty = "loopres %s %s" % (paren(lp["sty"]), paren(rty)) if lp["has_ret"] else lp["sty"]
             items.append("(* loop at line %s of %s *)\nFixpoint %s (fuel : nat)%s {struct fuel} : outcome (%s) :=\n"
                          "  match fuel with\n  | O => OutOfFuel\n  | S fuel =>\n%s\n  end." % (
-                             lp["line"], self.qual, lp["name"], args, lty, indent(render(lp["core"]), 4)))
+                             lp["line"], cmt(self.qual), lp["name"], args, lty, indent(render(lp["core"]), 4)))
         pargs = ""
         for k in members:
             v = self.vars[k]
             pargs += " (%s : %s)" % (v.gname, "Z" if v.ty.kind == "ptr" else v.ty.coq())
+        seen_mem = set()
         for p in self.params:
-            if p.mem:
+            if p.ty.kind == "empty":
+                continue
+            if p.mem and p.mem not in seen_mem:
+                seen_mem.add(p.mem)
                 pargs += " (%s : %s)" % (self.vars[p.mem].gname, self.vars[p.mem].ty.coq())
             pargs += " (%s : %s)" % (p.gname, "Z" if p.ty.kind == "ptr" else p.ty.coq())
         sig = d.get("type", {}).get("qualType", "")
         items.append("(* %s : %s, line %s%s *)\nDefinition %s%s%s : outcome (%s) :=\n%s." % (
-            self.qual, sig, d.get("_line"), (" <%s>" % ", ".join(self.u.targs.get(d["id"], [])) if self.u.targs.get(d["id"]) else ""),
+            cmt(self.qual), cmt(sig), d.get("_line"), cmt(" <%s>" % ", ".join(self.u.targs.get(d["id"], [])) if self.u.targs.get(d["id"]) else ""),
             self.gname, " (fuel : nat)" if self.needs_fuel else "", pargs, rty, indent(render(term))))
         self.u.out += items
         info = FnInfo()
@@ -1615,6 +1781,14 @@ class FnTrans:
             else:
                 term = term.replace("@END@", end)
         return term
+
+
+def cmt(s):
+    """text that is safe inside a Coq comment"""
+    return str(s).replace("(*", "( *").replace("*)", "* )")
+
+
+OPTIONAL_RE = re.compile(r"^(?:const\s+)?frg::optional<(.+)>$")
 
 
 def paren(s):
